@@ -39,14 +39,17 @@ LIGHT = [1, 2, 3, 4, 5, 6, 7, 8, 9, 10, 11, 12, 13, 15, 16, 17, 18]  # 14 (Si) l
 
 
 def _draw_rot(ctx, rng):
-    """`rotate` is documented as "bool or int": Python integer seeds and the two flags (NumPy integers are rejected
-    by AtomGrid itself on the unchanged tree, for hand-built grids just the same, so they decide nothing here); whatever is
+    """`rotate` is documented as "bool or int": integer seeds in every integer form (NumPy integers were rejected by
+    AtomGrid's generator until the fix recorded in known_findings.json, property C05) and the two flags; whatever is
     passed to the constructor is passed unchanged to the hand-built atomic grids it must reproduce."""
     u = rng.random()
-    if u < 0.7:
+    if u < 0.6:
         return int(rng.integers(0, 200))
-    ctx.hit("rotate:bool-flag")
-    return bool(rng.integers(0, 2))
+    if u < 0.8:
+        ctx.hit("rotate:bool-flag")
+        return bool(rng.integers(0, 2))
+    ctx.hit("rotate:numpy-integer")
+    return [np.int64, np.int32, np.uint8, np.int16][int(rng.integers(0, 4))](rng.integers(0, 200))
 
 
 def cases(tier, seed):
